@@ -119,7 +119,8 @@ def run_unit(uname, ucfg, tier, repo, verif, build, log):
                                 for s in ucfg.get('api_under_contract', [])]
     res['rewrites'] = rewrites
     allh = dict(ucfg['harnesses'])
-    allh.update(getattr(_prepare, 'generated', {}) or {})
+    if ucfg.get('use_generated_harnesses', True):
+        allh.update(getattr(_prepare, 'generated', {}) or {})
     exp = ucfg.get('expect_generated')
     if exp is not None and len(getattr(_prepare, 'generated', {}) or {}) != exp:
         res.update(status='undecided', reason=f'vacuity guard 1: generator produced {len(_prepare.generated)} harnesses, unit declares {exp}')
